@@ -408,8 +408,27 @@ static void apply_op (HState * S, Trans t)
 	case OP_WRITE_READ_LOAD_BASIS: case OP_WRITE_BASIS: {
 		QSbasis *B = mpq_QSget_basis (p);
 		if (!B) { S->inapplicable = 1; break; }
+		{ int wr = mpq_QSwrite_basis (p, NULL, "h.bas"); if (wr) { mpq_QSfree_basis (B); CALL (wr); } }
+		/* C14 inside a history: the file must describe the basis stored with the problem, whatever was solved or loaded before */
+		{
+			QSbasis *R = mpq_QSread_basis (p, "h.bas");
+			if (!R) viol ("C14", "hist-read-basis-failed", "mpq_QSread_basis cannot read the file mpq_QSwrite_basis(p, NULL, f) wrote [history: %s]", S->desc.s);
+			else {
+				int bad = (R->nstruct != B->nstruct || R->nrows != B->nrows);
+				for (int j = 0; j < B->nstruct && !bad; j++) {
+					char a = B->cstat[j], b2 = R->cstat[j];
+					if (a == b2) continue;
+					/* non-basic free columns may come back as free instead of at-lower and vice versa */
+					if ((a == QS_COL_BSTAT_FREE && b2 == QS_COL_BSTAT_LOWER) || (a == QS_COL_BSTAT_LOWER && b2 == QS_COL_BSTAT_FREE && M->loinf[j] && M->upinf[j])) continue;
+					bad = 1;
+				}
+				for (int i = 0; i < B->nrows && !bad; i++) if (B->rstat[i] != R->rstat[i]) bad = 1;
+				if (bad) viol ("C14", "hist-basis-file-differs", "the file written by mpq_QSwrite_basis(p, NULL, f) reads back as cstat=%.*s rstat=%.*s but mpq_QSget_basis reports cstat=%.*s rstat=%.*s [history: %s]",
+					R->nstruct, R->cstat, R->nrows, R->rstat, B->nstruct, B->cstat, B->nrows, B->rstat, S->desc.s);
+				mpq_QSfree_basis (R);
+			}
+		}
 		mpq_QSfree_basis (B);
-		CALL (mpq_QSwrite_basis (p, NULL, "h.bas"));
 		if (t.op == OP_WRITE_READ_LOAD_BASIS) CALL (mpq_QSread_and_load_basis (p, "h.bas"));
 		break;
 	}
@@ -444,7 +463,8 @@ static int o_depth, o_reduced, o_sandwich, o_binv, o_verd;
 void c13_check_basis (mpq_QSprob p, const RefLP * L, const char *ctx);
 void c12_check_current_basis (mpq_QSprob p, const RefLP * L, const char *ctx);
 static Trans *alpha; static int nalpha;
-static int step_radix (int i) { return (o_sandwich && (i == 0 || i == o_depth - 1)) ? 4 : nalpha; }   /* sandwich: first and last step are one of the 4 solves */
+static int idx_write_basis = -1;
+static int step_radix (int i) { if (o_sandwich == 2 && i == o_depth - 1) return 1; return (o_sandwich && (i == 0 || i == o_depth - 1)) ? 4 : nalpha; }   /* sandwich 1: first and last step are one of the 4 solves; 2: first a solve, last write_basis */
 static void hist_init (void)
 {
 	build_alphabets ();
@@ -452,6 +472,8 @@ static void hist_init (void)
 	o_reduced = (int) opt_int ("reduced", 0);
 	alpha = o_reduced ? alpha_red : alpha_full; nalpha = o_reduced ? n_red : n_full;
 	o_sandwich = (int) opt_int ("sandwich", 0);
+	for (int i = 0; i < nalpha; i++) if (alpha[i].op == OP_WRITE_BASIS) idx_write_basis = i;
+	if (o_sandwich == 2 && idx_write_basis < 0) { fprintf (stderr, "hist: sandwich=2 needs write_basis in the alphabet\n"); exit (2); }
 	o_binv = (int) opt_int ("binv", 0);      /* after every OPTIMAL solve: B^-1 and tableau rows must multiply back (C13) */
 	o_verd = (int) opt_int ("verd", 0);      /* after every step: the verdict functions on the problem's own basis (C12) */
 	if (opt_int ("printalpha", 0)) { for (int i = 0; i < nalpha; i++) fprintf (stderr, "%d %s#%d\n", i, opdefs[alpha[i].op].name, alpha[i].var); }
@@ -510,6 +532,7 @@ static void hist_run (long item)
 	int start = (int) (r % NSTART); r /= NSTART;
 	Trans seq[8];
 	for (int i = 0; i < o_depth; i++) { seq[i] = alpha[r % step_radix (i)]; r /= step_radix (i); }
+	if (o_sandwich == 2) seq[o_depth - 1] = alpha[idx_write_basis];
 	/* prune: histories that can show nothing new */
 	size_t mem0 = 0;
 	char capbuf[400]; capbuf[0] = 0;
